@@ -113,7 +113,13 @@ class KernelSim(WorldBase):
                     evs.append(["scan", {"name": g.choice(ops)[0]}])
                     if g.random() < 0.5:
                         evs.append(["badappend", {"name": g.choice(ops)[0], "row": g.randrange(4), "back": g.randint(0, 2)}])
-                if cut is not None and i == cut:
+                if cut is not None and i == cut and g.random() < 0.3:
+                    idxs_ = sorted(case["shapes"])
+                    evs.append(["grow", {"index": g.choice(idxs_), "writes": [[g.randrange(8) for _ in range(3)] for _ in range(g.randint(1, 3))],
+                                         "v": g.choice([1, 2, -1])}])
+                    for fl in g.sample(flows[:cut], min(cut, 3)):
+                        evs.append(["run", fl])
+                elif cut is not None and i == cut:
                     # the program updates an operand in place between two executions
                     nm, idx = g.choice(ops)
                     evs.append(["touch", {"name": nm, "point": [g.randrange(8) for _ in idx], "v": g.choice([1, 2, -1, 3])}])
@@ -448,6 +454,8 @@ class KernelSim(WorldBase):
                 return self.ev_scan(ev[1])
             if kind == "badappend":
                 return self.ev_badappend(ev[1])
+            if kind == "grow":
+                return self.ev_grow(ev[1])
             if kind == "session":
                 return self.ev_session(ev[1])
             raise Skip("unknown")
@@ -486,6 +494,38 @@ class KernelSim(WorldBase):
         self.sweep.pop("files", None)        # traces of later sessions are compared among themselves
         self.probe("operand_updated_between_runs")
         return {"touched": nm}
+
+    def ev_grow(self, a):
+        """between two executions one index variable gets one more value: every operand that has it is given the larger
+        shape (Tensor.setShape) and new elements at the new coordinate; later executions see the larger problem"""
+        x = a["index"]
+        if self.case is None or x not in self.case["shapes"]:
+            raise Skip("index")
+        if any(self.tensors[nm].getShape(authoritative=True) is None for nm, _ in K.case_spec(self.case)[1]):
+            raise Skip("operands without a declared shape")
+        out, ops = K.case_spec(self.case)
+        newc = self.case["shapes"][x]
+        shapes = dict(self.case["shapes"], **{x: newc + 1})
+        vals = {nm: [list(e) for e in self.case["vals"][nm]] for nm in self.case["vals"]}
+        for nm, idx in ops:
+            if x not in idx:
+                continue
+            t = self.tensors[nm]
+            t.setShape([shapes[i] for i in idx])
+            for w in a["writes"]:
+                pt = [(newc if i == x else w[k % len(w)] % shapes[i]) for k, i in enumerate(idx)]
+                r = t.getPayloadRef(*pt)
+                r <<= a["v"]
+                vals[nm] = [e for e in vals[nm] if list(e[0]) != pt] + [[pt, a["v"]]]
+            self.snap[nm] = ob.snapshot(t)
+        self.case = dict(self.case, shapes=shapes, vals={k: sorted(v) for k, v in vals.items()})
+        if out:
+            self.tensors["__Z__"] = Tensor(rank_ids=list(out), shape=[shapes[i] for i in out])
+            self.snap["__Z__"] = ob.snapshot(self.tensors["__Z__"])
+        self.ref = K.dense(self.case)
+        self.sweep.pop("files", None)
+        self.probe("problem_grown_between_runs")
+        return {"index": x, "size": newc + 1}
 
     def ev_badappend(self, a):
         """between two executions the program tries to append out of order to a row of an operand: the library
